@@ -1,7 +1,8 @@
 (* C11 — reference markers are sound and complete for the stated criteria.
-   (theorems are added in stage 2) *)
-From Coq Require Import ZArith List Bool.
-From CTM Require Import Base.Sx Model.Holm Model.Penetrance.
+   Property theorems only: each is closed by `exact <lemma>` (lemmas in Proofs/HolmP.v,
+   Proofs/PenetranceP.v). *)
+From Coq Require Import ZArith List Bool Arith Lia Permutation Sorted.
+From CTM Require Import Base.Sx Model.Holm Model.Penetrance Proofs.HolmP.
 Import ListNotations.
 Open Scope Z_scope.
 
@@ -9,3 +10,73 @@ Example c11_example_holm :
   correct_ttest 1000 0 [10; 500; 3; 10; 900; 4] = [40; 1000; 18; 40; 1000; 20] /\
   approx_correct_ttest 1000 100 [10; 500; 3; 10; 900; 4] = [40; 500; 18; 40; 900; 20].
 Proof. vm_compute. split; reflexivity. Qed.
+
+(* ------------------------------------------------------------------ *)
+(* Holm-Bonferroni.  p-values are P/S, the threshold is T/S (S > 0 a common denominator).
+
+   Tie invariance: np.argsort leaves the order of equal p-values unspecified.  For EVERY
+   arrangement l' of enumerate(p) that is sorted by value (every possible argsort result),
+   multiplying by m, m-1, ..., taking the running maximum, clipping at 1 and scattering
+   back by position gives the same array as the model's (stable) order.  Needs p >= 0. *)
+Theorem c11_holm_tie_invariant : forall S padding p l',
+  Forall (fun x => 0 <= x) p ->
+  Permutation l' (index p) -> StronglySorted (fun a b : ipair => snd a <= snd b) l' ->
+  by_index (map (fun x : ipair => (fst x, clip S (snd x)))
+                (runmax (Z.of_nat (length p + padding)) l'))
+  = correct_ttest S padding p.
+Proof. exact holm_tie_invariant. Qed.
+Print Assumptions c11_holm_tie_invariant.
+
+Example c11_holm_tie_nonvacuous :
+  (* two different sorted arrangements of the tie 10 = 10 (positions 0 and 3) *)
+  let p := [10; 500; 3; 10; 900; 4] in
+  let l1 : list ipair := [(2%nat, 3); (5%nat, 4); (0%nat, 10); (3%nat, 10); (1%nat, 500); (4%nat, 900)] in
+  let l2 : list ipair := [(2%nat, 3); (5%nat, 4); (3%nat, 10); (0%nat, 10); (1%nat, 500); (4%nat, 900)] in
+  Forall (fun x => 0 <= x) p /\
+  Permutation l1 (index p) /\ Permutation l2 (index p) /\ l1 <> l2 /\
+  StronglySorted (fun a b : ipair => snd a <= snd b) l1 /\
+  StronglySorted (fun a b : ipair => snd a <= snd b) l2 /\
+  by_index (map (fun x : ipair => (fst x, clip 1000 (snd x))) (runmax 6 l2)) = [40; 1000; 18; 40; 1000; 20].
+Proof.
+  cbv zeta. split; [repeat constructor; lia|].
+  assert (P1 : Permutation [(2%nat, 3); (5%nat, 4); (0%nat, 10); (3%nat, 10); (1%nat, 500); (4%nat, 900)]
+                           (index [10; 500; 3; 10; 900; 4])).
+  { rewrite <- (sortp_perm (index [10; 500; 3; 10; 900; 4])). vm_compute. apply Permutation_refl. }
+  split; [exact P1|]. split.
+  { eapply Permutation_trans; [|exact P1].
+    do 2 constructor. apply perm_swap. }
+  split; [discriminate|].
+  split; [repeat constructor; cbn; lia|].
+  split; [repeat constructor; cbn; lia|].
+  vm_compute. reflexivity.
+Qed.
+
+(* Restricted Holm (DESIGN Appendix A.4): for 0 <= p <= 1 and p_th <= 1,
+   - every p_i < p_th receives exactly its full Holm value,
+   - every other p_i is left unchanged (so stays >= p_th) and its full Holm value is >= p_th too,
+   - hence approx[i] < p_th  <->  holm[i] < p_th at every position. *)
+Theorem c11_restricted_holm_equiv : forall S T p,
+  Forall (fun x => 0 <= x <= S) p -> T <= S ->
+  length (approx_correct_ttest S T p) = length p /\ length (correct_ttest S 0 p) = length p /\
+  forall i v, nth_error p i = Some v ->
+    (v < T -> nth_error (approx_correct_ttest S T p) i = nth_error (correct_ttest S 0 p) i) /\
+    (T <= v -> nth_error (approx_correct_ttest S T p) i = Some v /\
+               exists w, nth_error (correct_ttest S 0 p) i = Some w /\ T <= w) /\
+    (exists a h, nth_error (approx_correct_ttest S T p) i = Some a /\
+                 nth_error (correct_ttest S 0 p) i = Some h /\ (a < T <-> h < T)).
+Proof. exact restricted_holm_equiv. Qed.
+Print Assumptions c11_restricted_holm_equiv.
+
+(* the same as an equation between the decision vectors *)
+Theorem c11_restricted_holm_decisions : forall S T p,
+  Forall (fun x => 0 <= x <= S) p -> T <= S ->
+  map (fun v => v <? T) (approx_correct_ttest S T p) = map (fun v => v <? T) (correct_ttest S 0 p).
+Proof. exact restricted_holm_decisions. Qed.
+Print Assumptions c11_restricted_holm_decisions.
+
+Example c11_restricted_nonvacuous :
+  Forall (fun x => 0 <= x <= 1000) [10; 500; 3; 10; 900; 4] /\ 100 <= 1000 /\
+  map (fun v => v <? 100) (approx_correct_ttest 1000 100 [10; 500; 3; 10; 900; 4]) = [true; false; true; true; false; true].
+Proof.
+  split; [repeat constructor; lia|]. split; [lia|]. vm_compute; reflexivity.
+Qed.
